@@ -27,7 +27,8 @@ ASSUMPTIONS = [
     'a history also ends, without a verdict, when a local id is reused while device packets addressed to the earlier stream with that id are still unread (only possible with the lowered id limits)',
 ]
 REQUIRED_COUNTERS = ['connect_sequences', 'host_messages_compared',
-                     'stream_ops_compared', 'ids_checked', 'closes_checked']
+                     'stream_ops_compared', 'ids_checked', 'closes_checked',
+                     'open_races']
 EXHAUSTIVE = {'quick': True, 'thorough': True}
 PLAN = {
     'quick': {'workers': 16, 'budget_s': 50, 'sampled_per_worker': 120},
@@ -46,10 +47,17 @@ def setup():
   harness.assert_root(adb_protocol)
   _M.update(ap=adb_protocol, exc=usb_exceptions,
             real_limit=adb_protocol.STREAM_ID_LIMIT)
+  from vf import pause
+  eng = pause.Engine([adb_protocol.__file__],
+                     lambda th: 'OA' if th.name == 'OA' else None)
+  eng.install()
+  eng.enabled = False
+  _M['engine'] = eng
 
 
 def teardown():
   _M['ap'].STREAM_ID_LIMIT = _M['real_limit']
+  _M['engine'].uninstall()
 
 
 # ------------------------------------------------------------ generators
@@ -61,6 +69,11 @@ def enumerated(tier):
         yield {'k': 'connect', 'keys': keys, 'seq': list(seq)}
   for h in DIRECTED:
     yield dict(h, k='streams')
+  # two threads open streams at the same time while the id counter wraps round
+  # the limit next to a long-lived stream; the first is held at each line of
+  # its way through the id allocation
+  for idx in range(40):
+    yield {'k': 'open_race', 'idx': idx}
   # short exhaustive stream histories
   alphabet = [['open', 'OKAY'], ['open', 'CLSE'], ['dev_wrte', 0], ['dev_wrte', 1],
               ['dev_clse', 0], ['read', 0], ['read', 1], ['close', 0],
@@ -738,7 +751,102 @@ def run_streams(case):
           'violations': viol, 'counters': counters}
 
 
+_RACE_POINTS = []
+
+
+def run_open_race(case):
+  import threading
+  from vf import fakeadb
+  ap, exc, eng = _M['ap'], _M['exc'], _M['engine']
+  out = {}
+
+  def scenario(target):
+    ap.STREAM_ID_LIMIT = 8
+    dev = fakeadb.FakeAdbDevice(exc, block=True)
+    dev.feed('CNXN', 0x01000000, 256, 'device:SER:banner')
+    remote = itertools.count(100)
+
+    def on_host(msg):
+      _, _, cmd, a0, a1, _ = msg
+      if cmd == 'OPEN':
+        dev.feed('OKAY', next(remote), a0)
+      elif cmd == 'CLSE':
+        pass
+
+    dev.on_host_message = on_host
+    conn = ap.AdbConnection.connect(dev, timeout_ms=20000)
+    keep = conn.open_stream('svc:keep', timeout_ms=20000)
+    for i in range(6):            # ids 2..7 used and released: the counter is at 7
+      st = conn.open_stream('svc:%d' % i, timeout_ms=20000)
+      st.close(timeout_ms=20000)
+    n_before = len(dev.host_msgs)
+    res = {}
+
+    def opener(tag):
+      try:
+        st = conn.open_stream('svc:' + tag, timeout_ms=20000)
+        res[tag] = st
+      except Exception as e:  # pylint: disable=broad-except
+        res[tag] = 'exc:' + type(e).__name__
+
+    eng.arm(target)
+    eng.enabled = True
+    try:
+      ta = threading.Thread(target=opener, args=('a',), name='OA')
+      ta.start()
+      if target is not None:
+        r = eng.run_action_at_pause(lambda: opener('b'), wait_s=4, hold_s=0.3)
+        out['reached'], out['blocked'] = r['reached'], r['blocked']
+        if r.get('_thread'):
+          r['_thread'].join(10)
+      ta.join(10)
+      if 'b' not in res:
+        opener('b')
+    finally:
+      eng.enabled = False
+      eng.release()
+    out['seen'] = dict(eng.seen)
+    out['open_ids'] = [m[3] for m in dev.host_msgs[n_before:] if m[2] == 'OPEN']
+    out['res'] = {k: (v if isinstance(v, str) else 'stream') for k, v in res.items()}
+    out['keep_id'] = 1
+    try:
+      conn.close()
+    finally:
+      dev.close()
+      ap.STREAM_ID_LIMIT = _M['real_limit']
+
+  if not _RACE_POINTS:
+    scenario(None)
+    _RACE_POINTS.extend((k, h) for k, n in sorted(out['seen'].items())
+                        if '_make_stream_transport' in k[1]
+                        for h in range(1, min(n, 3) + 1))
+  c = {'open_races': 0, 'ids_checked': 0}
+  if case['idx'] >= len(_RACE_POINTS):
+    return {'sig': None, 'violations': [], 'counters': c, 'evaluations': 0,
+            'sample': False}
+  target = _RACE_POINTS[case['idx']]
+  out.clear()
+  scenario(target)
+  viol = []
+  if out.get('reached'):
+    c['open_races'] = 1
+  ids = out.get('open_ids') or []
+  c['ids_checked'] = len(ids)
+  ctx = {'first_opener_held_at': [list(target[0]), target[1]],
+         'second_opener_blocked': out.get('blocked'), 'open_ids': ids,
+         'results': out.get('res')}
+  if len(ids) != 2 or set(out.get('res', {}).values()) != {'stream'}:
+    viol.append({'mechanism': 'streams:concurrent-open-failed', 'detail': ctx})
+  elif ids[0] == ids[1] or 1 in ids or not all(0 < i < 8 for i in ids):
+    viol.append({'mechanism': 'streams:local-id-not-distinct-or-out-of-range',
+                 'detail': ctx})
+  return {'sig': ['open_race', list(target[0]), target[1]], 'violations': viol,
+          'counters': c}
+
+
 def run_case(case):
+  if case['k'] == 'open_race':
+    return run_open_race(case)
   if case['k'] == 'connect':
     return run_connect(case)
   return run_streams(case)
